@@ -1601,6 +1601,20 @@ def m_any(ex, c, args):
             return True
 
 
+@model("Iterator::eq")
+def m_it_eq(ex, c, args):
+    """element-wise equality of two iterators (the second argument is any IntoIterator)"""
+    it, wb = _consume(ex, args)
+    other = to_iter(ex, rda(args[1]) if type(args[1]) is Ref else args[1])
+    while True:
+        x, it = it_next(ex, it)
+        y, other = it_next(ex, other)
+        if x is None or y is None:
+            return x is None and y is None
+        if not truth(ex, val_eq(ex, x, y), "iter-eq"):
+            return False
+
+
 @model("Iterator::all")
 def m_all(ex, c, args):
     it, wb = _consume(ex, args)
